@@ -10,6 +10,7 @@
 //! exactly one of the recorded states not older than the last acknowledged write. The generated
 //! image continues the chain: more writes on the recovered store, up to three crashes.
 
+mod syncrace;
 use nv_engine::crashkit::cut_points;
 use nv_engine::{main_for, pick, walframe, CaseCtx, Fail, PropDef, PropPart, Tier};
 use proptest::prelude::*;
@@ -606,6 +607,7 @@ fn main() {
         parts: vec![
             PropPart::new("crash", 1500, 60_000, case_strategy, |c: &Case, ctx: &mut CaseCtx| run_case(c, ctx, false)).shrink_iters(250).boxed(),
             PropPart::new("crash_allcuts", 60, 6_000, case_strategy, |c: &Case, ctx: &mut CaseCtx| run_case(c, ctx, true)).shrink_iters(80).boxed(),
+            PropPart::new("sync_race", 800, 16_000, syncrace::strategy, syncrace::check).shrink_iters(200).boxed(),
         ],
         children: vec![],
     });
